@@ -39,7 +39,7 @@ class C04(Prop):
     LONG_BIAS = 0.3
     BACKENDS = ("file", "file", "memory")
     WEIGHTS = {"page": 3, "pages": 1, "links": 1, "batch": 1, "again": 0, "create": 5, "delete": 3, "addprefix": 4,
-               "rmprefix": 3, "move": 3, "rule": 1, "unrule": 1, "reopen": 1, "clear": 1}
+               "rmprefix": 3, "move": 3, "rule": 1, "unrule": 1, "reopen": 1, "clear": 1, "recreate": 1}
     QUICK = (40, 20)
     THOROUGH = (200, 40)
     TECHNIQUE = ("stateful property-based testing (Hypothesis) against a ledger oracle; thorough tier adds coverage-guided "
